@@ -1,7 +1,7 @@
 """Common machinery of the fix8 checks: builds (Lean, harnesses, out-of-tree runtime/f8c/schema
 objects keyed by content hash), stream running with sanitizer-abort recovery, audit of the
 Lean sources (grep + #print axioms), evidence and verdict plumbing."""
-import fcntl, hashlib, json, os, re, shutil, subprocess, sys, time, glob, random
+import fcntl, hashlib, json, threading, os, re, shutil, subprocess, sys, time, glob, random
 
 ROOT = os.path.dirname(os.path.dirname(os.path.abspath(__file__)))
 REPO = os.environ.get('VERIF_REPO', '/repo')
@@ -362,13 +362,38 @@ def run_harness(exe, lines, per_line_timeout=20.0, env=None, args=(), stateful=F
         with open(errf, 'w') as ef:
             p = subprocess.Popen([exe] + list(args), stdin=subprocess.PIPE, stdout=subprocess.PIPE, stderr=ef, text=True,
                                  errors='replace', env=env, cwd=cwd)
-            try:
-                o, _ = p.communicate('\n'.join(chunk) + '\n', timeout=max(60.0, per_line_timeout * 3 + 0.01 * len(chunk)))
-                rc = p.returncode
-            except subprocess.TimeoutExpired:
-                p.kill()
-                o, _ = p.communicate()
-                rc = None
+            # a hang is "no further output line for 3 * per_line_timeout seconds" (at least 60 s), never a bound on the whole
+            # script: a loaded machine makes a long script slow, not hung
+            buf, last = [], [time.time()]
+
+            def _feed():
+                try:
+                    p.stdin.write('\n'.join(chunk) + '\n')
+                    p.stdin.close()
+                except (BrokenPipeError, OSError, ValueError):
+                    pass
+
+            def _read():
+                for ln in p.stdout:
+                    buf.append(ln)
+                    last[0] = time.time()
+            tw = threading.Thread(target=_feed, daemon=True)
+            tr = threading.Thread(target=_read, daemon=True)
+            tw.start()
+            tr.start()
+            quiet = max(60.0, per_line_timeout * 3)
+            rc = 'running'
+            while rc == 'running':
+                try:
+                    p.wait(timeout=1.0)
+                    rc = p.returncode
+                except subprocess.TimeoutExpired:
+                    if time.time() - last[0] > quiet:
+                        p.kill()
+                        p.wait()
+                        rc = None
+            tr.join(timeout=30)
+            o = ''.join(buf)
         got = o.split('\n')
         if got and got[-1] == '':
             got.pop()
